@@ -3,7 +3,7 @@ R-COUPLED-IMPORT-ORDER, R-REORG-INV, R-LOCALS-OWNER, R-ADDLOCAL, R-SWAP (name-al
 import os
 import re
 
-from vlib.facts import walk, peel, place_path, CheckError, REPO, lit_int, uncond_before
+from vlib.facts import walk, peel, place_path, CheckError, REPO, lit_int, uncond_before, every_iteration, path_to
 from vlib.paths import paths, normal_paths
 from vlib.report import RuleResult
 from rules.nopanic import snippet
@@ -502,10 +502,20 @@ def reorg_inv(F):
         d_del = ops.count("del+1") - ops.count("del-1")
         bad_idx = [e for e in ops if e.startswith("remove:") and "idx-num_deleted" not in e] + [e for e in ops if e.startswith("insert:") and e != "insert:num_imported"]
         in_prefix = any(c.startswith("T:idx<orig_num_imported") for c in conds)
+        decided = any(c[2:].startswith("idx<orig_num_imported") and "&&" not in c and "||" not in c and "==" not in c for c in conds)
+        ambiguous = (not decided) and any("orig_num_imported" in c for c in conds)
         label = " ∧ ".join(("" if c[0] == "T" else "¬") + c[2:] for c in conds)
         want_del = removes - inserts
         want_imp = (-1 if (in_prefix and removes > 0) else 0) + (1 if inserts > 0 else 0)
         ok = d_del == want_del and d_imp == want_imp and not bad_idx
+        if ambiguous and removes > 0:
+            # the branch is taken both for elements inside and outside the import prefix (the prefix test is buried in a
+            # compound condition): a removal inside the prefix needs Δnum_imported = -1, outside it needs 0 — one update cannot serve both
+            ok = False
+            r.ob(False, {"path": label, "prefix_membership": "undetermined on this path"})
+            r.violate("%s | %s | prefix-agnostic removal" % (fn["path"], label), F.loc(fn),
+                      "path [%s] removes an element without separating elements inside the import prefix (which must decrement num_imported) from those outside it (which must not): Δnum_imported=%d is wrong for one of the two" % (label, d_imp))
+            continue
         r.ob(ok, {"path": label, "remove": removes, "insert": inserts, "push": pushes, "Δnum_imported": d_imp, "Δnum_deleted": d_del})
         if not ok:
             r.violate("%s | %s" % (fn["path"], label), F.loc(fn),
@@ -545,7 +555,66 @@ def locals_owner(F):
                 r.ob(ok, {"fn": fn["path"], "what": w})
                 if not ok:
                     r.violate("%s | %s" % (fn["path"], w), F.loc(fn, n), "%s %s outside add_local: the count and the run-length list can diverge, so later local indices are wrong" % (fn["path"], w))
+    # by type: the run-length list is a Vec<(u32, DataType)>; any in-place mutation of one that the function did not build
+    # itself (a &mut parameter or a field) outside add_local bypasses the count
+    LT = "std::vec::Vec<(u32, ir::types::DataType)>"
+    MUTM = ("push", "insert", "remove", "clear", "pop", "extend", "truncate", "last_mut", "first_mut", "iter_mut", "get_mut", "retain", "drain", "swap", "sort", "sort_by", "dedup", "dedup_by_key", "append", "split_off", "swap_remove")
+    for fn in F.fns:
+        if fn.get("body") is None or fn is al:
+            continue
+        fresh = {st["pat"]["hid"] for st in walk(fn["body"]) if st.get("k") == "Let" and st["pat"].get("k") == "Binding" and LT in (st["pat"].get("ty") or "") and not (st["pat"].get("ty") or "").startswith("&")}
+        for n in walk(fn["body"]):
+            rt = (n.get("recv_ty") or "") + " " + ((n.get("recv") or {}).get("ty") or "") if n.get("k") == "MethodCall" else ""
+            if n.get("k") == "MethodCall" and n["method"] in MUTM and (LT in rt or "[(u32, ir::types::DataType)]" in rt):
+                root = n["recv"]
+                while isinstance(root, dict) and root.get("k") in ("Field", "Index", "Unary", "AddrOf", "MethodCall"):
+                    root = root.get("base") or root.get("a") or root.get("recv")
+                if isinstance(root, dict) and root.get("k") == "Path" and root.get("res", {}).get("hid") in fresh:
+                    continue  # building a list of its own (parse / constructors)
+                pp = place_path(n["recv"]) or "?"
+                key = "%s | mutates locals list (%s)" % (fn["path"], n["method"])
+                if any(v.key == key or v.key == "%s | mutates locals (%s)" % (fn["path"], n["method"]) for v in r.violations):
+                    continue
+                n_w += 1
+                r.ob(False, {"fn": fn["path"], "what": "%s.%s()" % (pp, n["method"])})
+                r.violate(key, F.loc(fn, n), "%s changes a function's run-length locals list in place (`%s.%s`) outside add_local: num_locals is not updated with it, so the next add_local returns an index that is already taken" % (fn["path"], pp, n["method"]))
     r.count("local_writes", n_w)
+    # parse side: Body{num_locals} is the sum of the counts of *every* locals entry that ends up in Body{locals}
+    pi = F.one_fn(name="parse_internal", self_adt="Module")
+    r.analysed.append(pi["path"])
+    body_lits = [x for x in walk(pi["body"]) if x.get("k") == "Struct" and (x.get("adt") or "").endswith("types::Body") and "rest" not in x]
+    n_cnt = 0
+    for lit in body_lits:
+        fs = dict(lit["fields"])
+        nl = peel(fs.get("num_locals") or {})
+        if nl.get("k") != "Path":
+            continue
+        H = nl["res"].get("hid")
+        accs = [x for x in walk(pi["body"]) if x.get("k") == "AssignOp" and x["op"].startswith("+") and peel(x["lhs"]).get("res", {}).get("hid") == H]
+        ok = len(accs) == 1
+        why = "%d accumulation sites" % len(accs)
+        if ok:
+            A = accs[0]
+            # enclosing iteration scope: closure body or for-loop body
+            scope = None
+            for anc, _ in reversed(path_to(pi["body"], A) or []):
+                if isinstance(anc, dict) and anc.get("k") == "Closure":
+                    scope = anc["body"]
+                    break
+                if isinstance(anc, dict) and anc.get("k") == "Match" and anc.get("src") == "ForLoopDesugar":
+                    scope = next((a2["body"] for a2 in anc["arms"] if any(x is A for x in walk(a2["body"]))), None)
+                    break
+            if scope is None:
+                ok, why = False, "the accumulation is not inside an iteration over the locals entries"
+            else:
+                ok, why = every_iteration(scope, A)
+                if ok and any(x.get("k") in ("Lit",) for x in walk(A["rhs"])):
+                    ok, why = False, "a literal is added instead of the entry's count"
+        n_cnt += 1
+        r.ob(ok, {"parse": "num_locals accumulates every entry's count", "ok": ok})
+        if not ok:
+            r.violate("%s | num_locals sum" % pi["path"], F.loc(pi, lit), "at parse time num_locals does not add the count of every locals entry (%s): add_local then returns indices that collide with existing locals" % why)
+    r.count("parse_body_literals", n_cnt)
     # shape of add_local
     def classify(n):
         if n.get("k") == "AssignOp" and n["op"].startswith("+"):
@@ -941,4 +1010,47 @@ def import_ordinal(F):
                           "a loop over all imports that filters by kind compares the enumerate() position with a per-kind index: once a non-matching import precedes, the wrong import (or none) is selected")
     r.count("import_loops", n_loops)
     r.count("kind_filtered_enumerations", n_filtered)
+    return r
+
+
+# ---------------------------------------------------------------- R-LOCAL-COUNT-GUARD
+def local_count_guard(F):
+    """Disjunctive rule.  Module::convert_import_fn_to_local turns an import into a local function without touching
+    num_local_functions (the counter is only a lower bound of the number of local functions).  Therefore emission
+    (encode_internal's code section, resolve_special_instrumentation's function walk) must not be switched off by a test of
+    that counter — EITHER every guard that reads it is vacuous (`!n > 0` is true for every n < u32::MAX), OR every function
+    that flips an element to FuncKind::Local also increments the counter."""
+    r = RuleResult("R-LOCAL-COUNT-GUARD",
+                   "code-section emission and special-instrumentation lowering are not disabled by `num_local_functions` being 0 unless every conversion to a local function maintains that counter (replace_import / convert_import_fn_to_local create local functions without incrementing it)")
+    guards = []
+    for name in ("encode_internal", "resolve_special_instrumentation"):
+        fn = F.one_fn(name=name, self_adt="Module")
+        r.analysed.append(fn["path"])
+        for n in walk(fn["body"]):
+            if n.get("k") == "If" and any(x.get("k") == "Field" and x["name"] == "num_local_functions" for x in walk(n["cond"])):
+                c = peel(n["cond"])
+                vacuous = c.get("k") == "Binary" and c.get("op") == ">" and peel(c["a"]).get("k") == "Unary" and peel(c["a"]).get("op") == "!" \
+                    and peel(c["b"]).get("k") == "Lit" and lit_int(peel(c["b"])["lit"]) == 0
+                guards.append((fn, n, vacuous))
+    # who flips to Local, and do they bump the counter
+    flippers = []
+    for fn in F.fns:
+        if fn.get("body") is None:
+            continue
+        for c in walk(fn["body"]):
+            if c.get("k") == "MethodCall" and c["method"] == "set_kind" and any((x.get("fres") or {}).get("variant") == "Local" or x.get("res", {}).get("variant") == "Local" for x in walk(c)):
+                bumps = any(x.get("k") == "AssignOp" and x["op"].startswith("+") and (place_path(x["lhs"]) or "").endswith("num_local_functions") for x in walk(fn["body"]))
+                flippers.append((fn, c, bumps))
+    exact = bool(flippers) and all(b for _, _, b in flippers)
+    r.count("guards", len(guards))
+    r.count("to_local_flippers", len(flippers))
+    for fn, n, vac in guards:
+        ok = vac or exact
+        r.ob(ok, {"guard_in": fn["name"], "vacuous": vac, "counter_exact": exact})
+        if not ok:
+            r.violate("%s | num_local_functions guard" % fn["path"], F.loc(fn, n),
+                      "%s is skipped when num_local_functions == 0, but %s make(s) local functions without incrementing that counter: in a module whose only local function replaced an import, the function's body is never lowered/emitted" % (
+                          "code emission" if fn["name"] == "encode_internal" else "special-instrumentation lowering", ", ".join(sorted({f["name"] for f, _, b in flippers if not b})) or "?"))
+    if not flippers:
+        raise CheckError("no set_kind(FuncKind::Local ..) site found (anchor moved?)")
     return r
